@@ -30,6 +30,9 @@ CHECKS = {
  'C08': ('exploration',
          "Held on the executions explored: a task carrying one policy between a predecessor and a successor (also as a join fed by two branches; synchronous and asynchronous actions): retry (count 0..3, delay 0..2, break-on / continue-on, every per-attempt outcome sequence), wait-before, wait-after, timeout (result in time, or withheld past the timeout and delivered late), fail-on, pause-before; values as literals / YAQL / Jinja, task level and task-defaults, both schedulers, fifo / lifo / random unit orders on the virtual clock; oracle: arithmetic of the statement on attempts, gaps between attempts, first start, successor creation, final states and messages.",
          "runtime monitoring: offline arithmetic checker over recorded ACTION_RUN events, virtual-clock times and row history, under schedule perturbation and harness-controlled timer/result order"),
+ 'C09': ('exploration',
+         "Held (up to the listed known finding) on the executions explored: chains of 1..3 nested sub-workflow calls (one level optionally with-items), each level defined in a random subset of {workbook member, standalone} x {caller's namespace, default namespace}, referenced by short / workbook-qualified name, literally or through YAQL / Jinja, started in-process or through the message bus, leaf outcomes success / error / cancel, errors handled or not, undeclared inputs incl. names colliding with engine-internal parameters, a root environment; leaf results held and delivered in every order under several unit orders and both schedulers; the recorded execution tree must equal the tree given by an independent evaluator of the documented name resolution and outcome composition (definition, state, output per node), with root link, namespace, params/input split, env() at every level, calling-task state and result, one result message and one successor per child completion.",
+         "runtime monitoring: reference-model monitor (independent evaluator of name resolution and outcome composition) over the recorded tree of execution rows, RPC messages and ACTION_RUN events, with harness-controlled completion orders"),
  'C10': ('exploration',
          "Held on the executions explored: pause injected at unit boundaries of generated runs (root or nested execution), everything in flight drained while PAUSED, resume, drain; monitors: no task row inserted while the execution is and stays PAUSED, acknowledged pause => PAUSED (with sub-workflows), normal form equal to the never-paused run on the deterministic fragment.",
          "runtime monitoring: no-insert-while-paused trace monitor + metamorphic equality with the unpaused run under pause injection at every unit boundary"),
@@ -64,7 +67,8 @@ CHECKS = {
          "Held on the fault sequences enumerated: silent / answered / asynchronous actions in forked workflows, heartbeats for subsets, real handle_expired_actions passes with the virtual clock at threshold-1 / threshold / threshold+1 / far beyond (after the last heartbeat or the first-heartbeat grace) in every order relative to late genuine results, settings incl. disabled; oracle: age >= threshold+1 must be failed with the heartbeat error, age <= threshold-1 must not, asynchronous / fresh / finished never, task and workflow follow their error handling, late results change no row; a stuck task manufactured by losing exactly one hand-off (with-items completion job, child->parent result) is completed exactly once by the engine's own integrity job so that the run equals the loss-free run, nothing scheduled with a negative delay.",
          "runtime monitoring: expiry-predicate monitor over action rows before/after each real checker pass on the virtual clock + metamorphic equality with the loss-free run after single hand-off loss"),
 }
-NOTES = {'C15': "Trusted base: fixtures created through services / DB API, identity from context / headers (authentication stubbed). Heartbeat reports and the engine-internal compare-and-swap functions are not tenant-facing and are excluded (see the evidence assumptions).",
+NOTES = {'C09': "Trusted base: the evaluator in mvf/checks/c09.py (resolution order and outcome composition written from the documentation), harness transport for sub-workflow start messages. Known finding (open): undeclared input named like an EngineClient.start_workflow argument with start_subworkflows_via_rpc leaves the calling task RUNNING.",
+         'C15': "Trusted base: fixtures created through services / DB API, identity from context / headers (authentication stubbed). Heartbeat reports and the engine-internal compare-and-swap functions are not tenant-facing and are excluded (see the evidence assumptions).",
          'C16': "Trusted base: authentication stubbed (identity from X-Project-Id / X-Roles headers), engine replaced by a recording stub answering from the database, request templates written by hand and cross-checked against the walked controller tree.",
          'C17': "Trusted base: recording stub instead of the engine client, keystone trusts stubbed at the boundary (authentication on), virtual clock, croniter for the pattern oracle. Known finding (open): occurrence lost when a processor dies between advancing the trigger and starting the workflow.",
          'C13': "Trusted base: the step driver that replaces the dispatcher / poller threads (due heap entries are popped by the harness; the _dispatcher thread's own waiting logic is not exercised in step mode), virtual clock, sqlite shared connection; the clock is never advanced while a live instance is between looking at a job and deleting it. Legacy scheduler: crash recovery not claimed.",
